@@ -11,8 +11,18 @@ BOUNDS = {'quick': 'degrees 1..8, num 1..4, points of dimension 2..4 and rows of
           'thorough': 'degrees 1..10, repeated reductions back to the original degree'}
 
 
-def h_elevate(cx, p, num, dim=3, rows=0):
+def h_elevate(cx, p, num, dim=3, rows=0, earlier=False):
     H = geo.M('helpers')
+    if earlier:
+        # earlier calls in the same process: other degrees on polygons with the SAME number of points and the same `num`
+        # (validation switched off, as the library's own callers do), and validated calls of neighbouring degrees
+        E = cx.points('E', p + 1, dim)
+        for q in sorted({1, max(1, p - 1), max(1, p - 2)}):
+            if q < p:
+                H.degree_elevation(q, E, num=num, check_num=False)
+        H.degree_elevation(p + 1, cx.points('F', p + 2, dim), num=num)
+        if p >= 2:
+            H.degree_reduction(p, E)
     if rows:
         # rows of points: a Bezier "curve of rows" (surface / volume use)
         P = [[[cx.real('P%d_%d_%d' % (i, r, d)) for d in range(dim)] for r in range(rows)] for i in range(p + 1)]
@@ -75,6 +85,8 @@ def instances(tier):
         for num in (1, 2, 3, 4):
             out.append(inst('elevate p%d num%d' % (p, num), h_elevate, p=p, num=num, dim=2 + (p + num) % 3))
         out.append(inst('elevate p%d rows' % p, h_elevate, p=p, num=1 + p % 3, dim=3, rows=2))
+        if p >= 2:
+            out.append(inst('elevate p%d num%d after other calls' % (p, 1 + p % 2), h_elevate, p=p, num=1 + p % 2, dim=2, earlier=True))
         for num in ((1, 2) if quick else (1, 2, 3, 4)):
             out.append(inst('reduce p%d num%d' % (p, num), h_reduce, p=p, num=num, dim=2 + p % 2))
     for p in (0, 1, 2, 3):
